@@ -20,12 +20,13 @@ import (
 // Environment doubles and the scenario interpreter shared by C10 C11 C12 C15.
 
 var (
-	errInjectedWrite       = errors.New("injected write failure")
-	errConnClosed          = errors.New("vconn: use of closed connection")
-	errReadTimeout   error = &net.OpError{Op: "read", Net: "vconn", Err: os.ErrDeadlineExceeded} // a net.Error whose Timeout() is true, like a read deadline that expired
-	errInjConnClose        = errors.New("injected connection close error")
-	errInjAgentClose       = errors.New("injected agent close error")
-	errInjAgentStart       = errors.New("injected agent start error")
+	errInjectedWrite         = errors.New("injected write failure")
+	errConnClosed            = errors.New("vconn: use of closed connection")
+	errReadTimeout     error = &net.OpError{Op: "read", Net: "vconn", Err: os.ErrDeadlineExceeded} // a net.Error whose Timeout() is true, like a read deadline that expired
+	errInjConnClose          = errors.New("injected connection close error")
+	errInjAgentClose         = errors.New("injected agent close error")
+	errInjAgentStart         = errors.New("injected agent start error")
+	errInjAgentProcess       = errors.New("injected agent process error: message refused")
 	// the same faults with errors whose IDENTITY means something elsewhere: closing a connection that is closed
 	// already, an agent closed by its owner first, a write that runs into its deadline
 	errInjConnCloseSentinel  error = &net.OpError{Op: "close", Net: "udp", Err: net.ErrClosed}
@@ -98,15 +99,17 @@ func (e cliEv) String() string {
 	case "tick":
 		return "tick(" + []string{"at-deadline", "just-after-deadline", "far", "late: deadline+0.3 rto", "early: half-way to the deadline", "1 ns before the deadline"}[e.Arg] + ")"
 	case "garbage":
-		return "garbage(" + []string{"7 bytes", "bad cookie", "1025 bytes (truncated by the reader)", "attribute overrun", "valid header, body cut short"}[e.Arg] + ")"
+		return "garbage(" + []string{"7 bytes", "bad cookie", "1025 bytes (truncated by the reader)", "attribute overrun", "valid header, body cut short", "attribute 0x0030 overruns", "attribute 0x803F overruns"}[e.Arg] + ")"
 	case "failagent":
 		return "failagent(" + []string{"injected error", "ErrTransactionExists"}[e.Arg] + ")"
 	case "readerr":
-		return "readerr(" + []string{"generic", "net.ErrClosed", "io.EOF", "ECONNREFUSED", "deadline exceeded"}[e.Arg] + ")"
+		return "readerr(" + []string{"generic", "net.ErrClosed", "io.EOF", "ECONNREFUSED", "deadline exceeded", "ECONNRESET"}[e.Arg] + ")"
 	case "setrto":
 		return fmt.Sprintf("setrto(%dms)", e.Arg)
 	case "clockback":
 		return "the clock is set back by an hour"
+	case "failprocess":
+		return "the agent refuses the next message"
 	}
 	return e.K
 }
@@ -383,14 +386,23 @@ func (v *vCollector) tick(t time.Time) {
 
 // vAgent delegates to the real Agent and records deadlines.
 type vAgent struct {
-	w         *cliWorld
-	a         *stun.Agent
-	deadlines map[[12]byte]time.Time
-	failStart bool // the next Start fails (a ClientAgent is user-supplied: its Start may return an error)
-	failKind  int
+	w           *cliWorld
+	a           *stun.Agent
+	deadlines   map[[12]byte]time.Time
+	failProcess bool // the next Process is refused with an error that is not ErrAgentClosed
+	failStart   bool // the next Start fails (a ClientAgent is user-supplied: its Start may return an error)
+	failKind    int
 }
 
-func (a *vAgent) Process(m *stun.Message) error { return a.a.Process(m) }
+func (a *vAgent) Process(m *stun.Message) error {
+	if a.failProcess {
+		// a user-supplied agent may refuse a message (a filter, a rate limit): the message is not processed
+		a.failProcess = false
+		a.w.rec(obsRec{Kind: "process-refused", Inst: -1, Data: append([]byte(nil), m.Raw...)})
+		return errInjAgentProcess
+	}
+	return a.a.Process(m)
+}
 func (a *vAgent) Close() error {
 	err := a.a.Close()
 	if err == nil && a.w.sc.Opts.AgentCloseErr {
@@ -456,6 +468,8 @@ func cliReadErr(kind int) error {
 		return &net.OpError{Op: "read", Net: "udp", Err: syscall.ECONNREFUSED} // not Temporary(), not Timeout()
 	case 4:
 		return os.ErrDeadlineExceeded
+	case 5:
+		return &net.OpError{Op: "read", Net: "udp", Err: os.NewSyscallError("recvfrom", syscall.ECONNRESET)}
 	}
 	return errors.New("vconn: injected read error")
 }
@@ -606,6 +620,11 @@ func cliGarbage(kind int) []byte {
 	case 4: // a well-formed header that announces more body than the datagram carries (total still below the read buffer)
 		b := cliResponse(0, 97)
 		return b[:len(b)-8]
+	case 5, 6: // a valid header and one attribute that overruns the message, of a type the library has no name for
+		b := cliResponse(0, 96)
+		b[20], b[21] = []byte{0x00, 0x80}[kind-5], []byte{0x30, 0x3F}[kind-5]
+		b[23] = 0x7f // header, cookie and message length are right; the attribute announces more than the message holds
+		return b
 	default:
 		b := cliResponse(0, 98)
 		b[23] = 0x7f
@@ -684,6 +703,11 @@ func (w *cliWorld) handlerFor(inst *txInst, idx int) stun.Handler {
 			// (not Close: a handler running on the collector's goroutine that calls Close waits for itself, by design)
 			_ = w.client.Indicate(cliRequest(9, 20))
 			_ = w.client.Start(cliRequest(8, 20), func(stun.Event) {})
+			if errors.Is(e.Error, stun.ErrClientClosed) || errors.Is(e.Error, stun.ErrAgentClosed) {
+				// told that the client is closing (these events come from Close itself): a handler that "makes sure" and
+				// closes the client gets ErrClientClosed
+				_ = w.client.Close()
+			}
 		}
 		sched.Point("handler-return", nil)
 		inst.HandlerDone = len(w.log)
@@ -706,6 +730,7 @@ func (w *cliWorld) msgFor(slot int) *stun.Message {
 		// fields assigned without encoding them: Raw is what goes out
 		m.Type = stun.MessageType{Method: stun.MethodAllocate, Class: stun.ClassIndication}
 		m.Length += 8
+		m.TransactionID[11] ^= 0xFF // (the client files the transaction under the field; what goes out is Raw)
 	}
 	w.msgs[slot] = m
 	return m
@@ -858,6 +883,8 @@ func (w *cliWorld) do(ev cliEv, quiesce bool) {
 	case "setrto":
 		w.rtoNow = time.Duration(ev.Arg) * time.Millisecond
 		c.SetRTO(w.rtoNow)
+	case "failprocess":
+		w.agent.failProcess = true
 	case "clockback":
 		// the caller's clock is a wall clock: it is stepped back (NTP correction, VM restore). Deadlines of
 		// transactions started from now on are taken from the new time
@@ -907,6 +934,11 @@ func runScenario(sc cliScenario) (*sched.Result, *cliWorld) {
 					r.Attr = msgContent(e.Message)
 				}
 				w.rec(r)
+				if sc.Opts.Reentrant {
+					// the fallback handler answers what it is handed: it calls back into the client
+					_ = w.client.Indicate(cliRequest(9, 20))
+					_ = w.client.Start(cliRequest(8, 20), func(stun.Event) {})
+				}
 			}))
 		}
 		var err error
